@@ -224,6 +224,10 @@ def random_case(draw):
     nvars = draw(st.sampled_from([2, 3, 3, 3, 4]))
     names = ["q0", "q1", "q2", "q3"][:nvars] if draw(st.booleans()) else sorted(
         draw(st.lists(st.sampled_from(gen.NAME_POOL), min_size=nvars, max_size=nvars, unique=True)), key=gen.var_num)
+    if draw(st.integers(0, 3)) == 0:
+        # the operands store their indeterminates in one common tuple that is not in index order (as
+        # symbols("q1,q0"), set_dimensions or names= produce): the order is one of polynomials, not of layouts
+        names = list(draw(st.permutations(names)))
     deg = draw(st.integers(2, 5 if nvars <= 3 else 3))
     monos = [list(e) for e in itertools.product(range(deg + 1), repeat=nvars) if sum(e) == deg]
     low = [list(e) for e in itertools.product(range(deg), repeat=nvars) if sum(e) < deg]
@@ -369,6 +373,8 @@ def check_case(case, ctx):
     ctx.label("n-operands:%d" % len(live))
     if any("num" in d for d in case["ops"]):
         ctx.label("numeric-operand")
+    if any(list(d["names"]) != sorted(d["names"], key=gen.var_num) for d in case["ops"] if d.get("names")):
+        ctx.label("names:not-index-ordered")
     if any(d.get("dtype") for d in case["ops"]):
         ctx.label("storage:" + next(d["dtype"] for d in case["ops"] if d.get("dtype")))
     ctx.nontrivial(nontrivial)
